@@ -9,11 +9,13 @@ import (
 	"fmt"
 	"math/big"
 	"math/rand/v2"
+	"sort"
 
 	"github.com/oasisprotocol/curve25519-voi/curve"
 	"github.com/oasisprotocol/curve25519-voi/curve/scalar"
 	"github.com/oasisprotocol/curve25519-voi/zzverif/gen"
 	"github.com/oasisprotocol/curve25519-voi/zzverif/gx"
+	"github.com/oasisprotocol/curve25519-voi/zzverif/hist"
 	"github.com/oasisprotocol/curve25519-voi/zzverif/mon"
 	"github.com/oasisprotocol/curve25519-voi/zzverif/ref"
 )
@@ -29,13 +31,14 @@ type Case struct {
 type ctx struct {
 	r *mon.Run
 	c Case
+	h *hist.Pool // receivers with a past (see package hist)
 }
 
 var gEnc = ref.RistrettoEncode(ref.B)
 var zero32 = make([]byte, 32)
 
-func loadedG() *curve.RistrettoPoint {
-	return curve.NewRistrettoPoint().Set(curve.RISTRETTO_BASEPOINT_POINT)
+func (x *ctx) loadedG() *curve.RistrettoPoint {
+	return x.h.RVal(curve.RISTRETTO_BASEPOINT_POINT)
 }
 
 func renc(p *curve.RistrettoPoint) []byte {
@@ -56,13 +59,13 @@ func (x *ctx) decodeString(b []byte) {
 		r.Violate("ristretto/CompressedRistretto.SetBytes/32-bytes", det(), x.c)
 		return
 	}
-	p := loadedG()
+	p := x.loadedG()
 	_, err := p.SetCompressed(&c)
 	if (err == nil) != ok {
 		r.Violate(fmt.Sprintf("ristretto/SetCompressed/accept/want=%v", ok), fmt.Sprintf("err=%v; %s", err, det()), x.c)
 		return
 	}
-	q := loadedG()
+	q := x.loadedG()
 	err2 := q.UnmarshalBinary(b)
 	if (err2 == nil) != ok {
 		r.Violate(fmt.Sprintf("ristretto/UnmarshalBinary/accept/want=%v", ok), fmt.Sprintf("err=%v; %s", err2, det()), x.c)
@@ -127,7 +130,7 @@ func (x *ctx) lengths(rng *rand.Rand) {
 			det := func() string { return fmt.Sprintf("len=%d fill=%d", l, fill) }
 			r.Eval([]byte(det()))
 			r.Hist("lengths")
-			p := loadedG()
+			p := x.loadedG()
 			var err error
 			if pan, msg := mon.Try(func() { err = p.UnmarshalBinary(b) }); pan {
 				r.Violate("ristretto/RistrettoPoint.UnmarshalBinary/panic", msg+"; "+det(), x.c)
@@ -156,7 +159,7 @@ func (x *ctx) lengths(rng *rand.Rand) {
 				r.Violate("ristretto/CompressedRistretto.SetBytes/wrong-length-accepted", det(), x.c)
 			}
 			if l != 64 {
-				if res, err := curve.NewRistrettoPoint().SetUniformBytes(b); err == nil || res != nil {
+				if res, err := x.h.R().SetUniformBytes(b); err == nil || res != nil {
 					r.Violate("ristretto/SetUniformBytes/wrong-length-accepted", det(), x.c)
 				}
 			}
@@ -214,7 +217,7 @@ func (x *ctx) cosets(rng *rand.Rand) {
 		}
 		// P vs P + (order-8 point) is a different element of the quotient... not a valid representative; P vs -P differ unless 2P=O
 		if k.Sign() != 0 {
-			neg := curve.NewRistrettoPoint().Neg(reps[0])
+			neg := x.h.R().Neg(reps[0])
 			if neg.Equal(reps[1]) == 1 {
 				r.Violate("ristretto/Equal/P-equals-minus-P", det(), x.c)
 			}
@@ -222,25 +225,25 @@ func (x *ctx) cosets(rng *rand.Rand) {
 		// group operations agree with the reference
 		k2 := new(big.Int).Mod(gen.RandScalar(rng, cat), ref.L)
 		other := gx.RistrettoFromEdwards(gen.LibPoint(ref.Encode(ref.B.Mul(k2).Add(gen.Tors[2*rng.IntN(4)]))))
-		sum := curve.NewRistrettoPoint().Add(reps[rng.IntN(len(reps))], other)
+		sum := x.h.R().Add(reps[rng.IntN(len(reps))], other)
 		if !bytes.Equal(renc(sum), ref.RistrettoEncode(ref.B.Mul(new(big.Int).Add(k, k2)))) {
 			r.Violate("ristretto/Add", det(), x.c)
 		}
-		diff := curve.NewRistrettoPoint().Sub(reps[rng.IntN(len(reps))], other)
+		diff := x.h.R().Sub(reps[rng.IntN(len(reps))], other)
 		if !bytes.Equal(renc(diff), ref.RistrettoEncode(ref.B.Mul(new(big.Int).Mod(new(big.Int).Sub(k, k2), ref.L)))) {
 			r.Violate("ristretto/Sub", det(), x.c)
 		}
-		s3 := curve.NewRistrettoPoint().Sum([]*curve.RistrettoPoint{reps[0], other, reps[len(reps)-1]})
+		s3 := x.h.R().Sum([]*curve.RistrettoPoint{reps[0], other, reps[len(reps)-1]})
 		if !bytes.Equal(renc(s3), ref.RistrettoEncode(ref.B.Mul(new(big.Int).Add(new(big.Int).Lsh(k, 1), k2)))) {
 			r.Violate("ristretto/Sum", det(), x.c)
 		}
 		sc, _ := scalar.NewFromBits(ref.LE32(k2))
-		mul := curve.NewRistrettoPoint().Mul(reps[rng.IntN(len(reps))], sc)
+		mul := x.h.R().Mul(reps[rng.IntN(len(reps))], sc)
 		if !bytes.Equal(renc(mul), ref.RistrettoEncode(ref.B.Mul(new(big.Int).Mod(new(big.Int).Mul(k, k2), ref.L)))) {
 			r.Violate("ristretto/Mul", det(), x.c)
 		}
 		for ch := 0; ch < 2; ch++ {
-			t := curve.NewRistrettoPoint()
+			t := x.h.R()
 			t.ConditionalSelect(reps[0], other, ch)
 			w := want
 			if ch == 1 {
@@ -257,33 +260,59 @@ func (x *ctx) cosets(rng *rand.Rand) {
 		zero := scalar.New()
 		rbase := reps[0]
 		algos := map[string]func() *curve.RistrettoPoint{
-			"Mul":                                     func() *curve.RistrettoPoint { return curve.NewRistrettoPoint().Mul(rbase, sc) },
-			"DoubleScalarMulBasepointVartime":         func() *curve.RistrettoPoint { return curve.NewRistrettoPoint().DoubleScalarMulBasepointVartime(sc, rbase, zero) },
-			"ExpandedDoubleScalarMulBasepointVartime": func() *curve.RistrettoPoint { return curve.NewRistrettoPoint().ExpandedDoubleScalarMulBasepointVartime(sc, curve.NewExpandedRistrettoPoint(rbase), zero) },
-			"MultiscalarMul":                          func() *curve.RistrettoPoint { return curve.NewRistrettoPoint().MultiscalarMul([]*scalar.Scalar{sc}, []*curve.RistrettoPoint{rbase}) },
-			"MultiscalarMulVartime":                   func() *curve.RistrettoPoint { return curve.NewRistrettoPoint().MultiscalarMulVartime([]*scalar.Scalar{sc, zero}, []*curve.RistrettoPoint{rbase, other}) },
-			"ExpandedMultiscalarMulVartime":           func() *curve.RistrettoPoint { return curve.NewRistrettoPoint().ExpandedMultiscalarMulVartime([]*scalar.Scalar{sc}, []*curve.ExpandedRistrettoPoint{curve.NewExpandedRistrettoPoint(rbase)}, nil, nil) },
-			"MulBasepoint(custom table)":              func() *curve.RistrettoPoint { return curve.NewRistrettoPoint().MulBasepoint(curve.NewRistrettoBasepointTable(rbase), sc) },
+			"Mul":                             func() *curve.RistrettoPoint { return x.h.R().Mul(rbase, sc) },
+			"DoubleScalarMulBasepointVartime": func() *curve.RistrettoPoint { return x.h.R().DoubleScalarMulBasepointVartime(sc, rbase, zero) },
+			"ExpandedDoubleScalarMulBasepointVartime": func() *curve.RistrettoPoint {
+				return x.h.R().ExpandedDoubleScalarMulBasepointVartime(sc, curve.NewExpandedRistrettoPoint(rbase), zero)
+			},
+			"MultiscalarMul": func() *curve.RistrettoPoint {
+				return x.h.R().MultiscalarMul([]*scalar.Scalar{sc}, []*curve.RistrettoPoint{rbase})
+			},
+			"MultiscalarMulVartime": func() *curve.RistrettoPoint {
+				return x.h.R().MultiscalarMulVartime([]*scalar.Scalar{sc, zero}, []*curve.RistrettoPoint{rbase, other})
+			},
+			"ExpandedMultiscalarMulVartime": func() *curve.RistrettoPoint {
+				return x.h.R().ExpandedMultiscalarMulVartime([]*scalar.Scalar{sc}, []*curve.ExpandedRistrettoPoint{curve.NewExpandedRistrettoPoint(rbase)}, nil, nil)
+			},
+			"MulBasepoint(custom table)": func() *curve.RistrettoPoint { return x.h.R().MulBasepoint(curve.NewRistrettoBasepointTable(rbase), sc) },
 			"in-place MultiscalarMul(acc among the points)": func() *curve.RistrettoPoint {
-				acc := curve.NewRistrettoPoint().Set(rbase)
+				acc := x.h.R().Set(rbase)
 				return acc.MultiscalarMul([]*scalar.Scalar{sc, zero}, []*curve.RistrettoPoint{acc, other})
 			},
 			"in-place MultiscalarMulVartime(acc among the points)": func() *curve.RistrettoPoint {
-				acc := curve.NewRistrettoPoint().Set(rbase)
+				acc := x.h.R().Set(rbase)
 				return acc.MultiscalarMulVartime([]*scalar.Scalar{zero, sc}, []*curve.RistrettoPoint{other, acc})
 			},
 			"in-place Mul/Add/Sub/Neg": func() *curve.RistrettoPoint {
-				acc := curve.NewRistrettoPoint().Set(rbase)
+				acc := x.h.R().Set(rbase)
 				acc.Mul(acc, sc)
 				acc.Add(acc, acc)
-				acc.Sub(acc, curve.NewRistrettoPoint().Mul(rbase, sc))
+				acc.Sub(acc, x.h.R().Mul(rbase, sc))
 				acc.Neg(acc)
 				return acc.Neg(acc)
 			},
 		}
 		wantKK := ref.RistrettoEncode(ref.B.Mul(kk))
 		wantSum := ref.RistrettoEncode(ref.B.Mul(new(big.Int).Add(kk, k2)))
-		for name, f := range algos {
+		// an expansion whose object used to stand for another element, a value copy of which is still alive
+		xq, oldCopy, oldPoint := x.h.XR(rbase)
+		algos["ExpandedDoubleScalarMulBasepointVartime(re-targeted expansion)"] = func() *curve.RistrettoPoint {
+			return x.h.R().ExpandedDoubleScalarMulBasepointVartime(sc, xq, zero)
+		}
+		algos["ExpandedMultiscalarMulVartime(re-targeted expansion)"] = func() *curve.RistrettoPoint {
+			return x.h.R().ExpandedMultiscalarMulVartime([]*scalar.Scalar{sc}, []*curve.ExpandedRistrettoPoint{xq}, nil, nil)
+		}
+		r.Eval(nil)
+		if got := renc(x.h.R().ExpandedDoubleScalarMulBasepointVartime(one, oldCopy, zero)); !bytes.Equal(got, renc(oldPoint)) || !bytes.Equal(renc(oldCopy.Point()), renc(oldPoint)) {
+			r.Violate("ristretto/ExpandedRistrettoPoint/value-copy-changed-by-re-targeting-the-original", fmt.Sprintf("[1]copy = %x, the copy's element %x; %s", got, renc(oldPoint), det()), x.c)
+		}
+		var names []string
+		for name := range algos {
+			names = append(names, name)
+		}
+		sort.Strings(names)
+		for _, name := range names {
+			f := algos[name]
 			var res *curve.RistrettoPoint
 			pan, msg := mon.Try(func() { res = f() })
 			r.Eval(nil)
@@ -296,10 +325,10 @@ func (x *ctx) cosets(rng *rand.Rand) {
 				r.Violate("ristretto/"+name+"/encoding", fmt.Sprintf("result of %s encodes to %x, RFC encoding of the element %x; %s", name, got, wantKK, det()), x.c)
 				continue
 			}
-			if got := renc(curve.NewRistrettoPoint().Add(res, other)); !bytes.Equal(got, wantSum) {
+			if got := renc(x.h.R().Add(res, other)); !bytes.Equal(got, wantSum) {
 				r.Violate("ristretto/"+name+"/as-operand", fmt.Sprintf("result of %s used as an operand of Add gives %x, want %x; %s", name, got, wantSum, det()), x.c)
 			}
-			if res.Equal(curve.NewRistrettoPoint().Mul(rbase, sc)) != 1 {
+			if res.Equal(x.h.R().Mul(rbase, sc)) != 1 {
 				r.Violate("ristretto/"+name+"/Equal", det(), x.c)
 			}
 		}
@@ -325,7 +354,7 @@ func (x *ctx) uniform(rng *rand.Rand) {
 		det := func() string { return fmt.Sprintf("in=%x", in) }
 		r.Eval(in)
 		r.Hist("uniform")
-		p, err := curve.NewRistrettoPoint().SetUniformBytes(in)
+		p, err := x.h.R().SetUniformBytes(in)
 		if err != nil {
 			r.Violate("ristretto/SetUniformBytes/error", det(), x.c)
 			continue
@@ -334,12 +363,12 @@ func (x *ctx) uniform(rng *rand.Rand) {
 		if got := renc(p); !bytes.Equal(got, want) {
 			r.Violate("ristretto/SetUniformBytes/value", fmt.Sprintf("got %x want %x; %s", got, want, det()), x.c)
 		}
-		p2, err := curve.NewRistrettoPoint().SetRandom(bytes.NewReader(in))
+		p2, err := x.h.R().SetRandom(bytes.NewReader(in))
 		if err != nil || !bytes.Equal(renc(p2), want) {
 			r.Violate("ristretto/SetRandom/value", det(), x.c)
 		}
 	}
-	if _, err := curve.NewRistrettoPoint().SetRandom(bytes.NewReader(make([]byte, 63))); err == nil {
+	if _, err := x.h.R().SetRandom(bytes.NewReader(make([]byte, 63))); err == nil {
 		r.Violate("ristretto/SetRandom/short-entropy", "63 bytes accepted", x.c)
 	}
 }
@@ -351,7 +380,8 @@ func sString(v *big.Int, top uint) []byte {
 }
 
 func runCase(r *mon.Run, c Case) {
-	x := &ctx{r: r, c: c}
+	x := &ctx{r: r, c: c, h: hist.New(r.Rng(c.Stream + "/receivers"))}
+	defer func() { r.HistN("receivers-with-a-past", x.h.Uses) }()
 	rng := r.Rng(c.Stream)
 	switch c.Kind {
 	case "string":
